@@ -421,3 +421,17 @@ pub fn uid_by_val(val: u64) -> u32 {
             .unwrap_or(0)
     })
 }
+
+/// Arms the destructor panic of the live object at `addr` (harness knob for C18).
+pub fn arm_panic_at(addr: usize) -> bool {
+    ARENA.with(|a| {
+        let a = a.borrow();
+        match a.by_addr.get(&addr) {
+            Some(si) if a.slots[*si].state.get() == ST_LIVE => {
+                a.slots[*si].panic_on_drop.set(true);
+                true
+            }
+            _ => false,
+        }
+    })
+}
